@@ -298,7 +298,18 @@ func (s *FileSource) run() (err error) {
 
 			s.logger.Debug("feeding from incoming file", zap.String("filename", incomingFile.filename))
 
-			for preBlock := range incomingFile.blocks {
+			for {
+				var preBlock *PreprocessedBlock
+				var more bool
+				select {
+				case <-s.Terminating():
+					// the reader of this file may have failed before it could close the channel
+					return nil
+				case preBlock, more = <-incomingFile.blocks:
+				}
+				if !more {
+					break
+				}
 				if s.IsTerminating() {
 					return nil
 				}
